@@ -56,6 +56,7 @@ package connectconformance
 //@   ensures @stopped startedProc[0] != old(startedProc[0]) && startedProc[0] != nil ==> abortN[startedProc[0].processController] > old(abortN)[startedProc[0].processController] //# a server that was started is asked to stop
 //@   ensures @accounted forall i int :: 0 <= i && i < len(testCases) ==>
 //@        has(results.outcomes, testCases[i].Request.TestName) || sendOK[testCases[i].Request.TestName]
+//@   assert_at "req.ServerTlsCert = resp.PemCert": meta.useTLS ==> len(resp.PemCert) > 0 //# no request goes to the client of a TLS batch without the server's certificate
 //@   loop 0: invariant testCaseNameSet != nil && fresh(testCaseNameSet)
 //@   loop 1: invariant forall k int :: 0 <= k && k <= rangeindex ==> sendOK[testCases[k].Request.TestName]
 //@   loop 2: invariant i <= j && j <= len(testCases)
